@@ -16,19 +16,13 @@ import (
 	sdk "github.com/cosmos/cosmos-sdk/types"
 
 	"github.com/ethereum/go-ethereum/common"
-	ethtypes "github.com/ethereum/go-ethereum/core/types"
 
-	bsctypes "github.com/teleport-network/teleport/x/xibc/clients/light-clients/bsc/types"
 	ethclient "github.com/teleport-network/teleport/x/xibc/clients/light-clients/eth/types"
-	tsstypes "github.com/teleport-network/teleport/x/xibc/clients/tss-client/types"
-	xibcclient "github.com/teleport-network/teleport/x/xibc/core/client"
-	clienttypes "github.com/teleport-network/teleport/x/xibc/core/client/types"
-	"github.com/teleport-network/teleport/x/xibc/exported"
 
 	"verif/internal/bfs"
 	"verif/internal/checks/agg"
+	"verif/internal/checks/fx"
 	"verif/internal/checks/c09"
-	"verif/internal/checks/c10"
 	"verif/internal/checks/c17"
 	"verif/internal/checks/c20"
 	"verif/internal/checks/relay"
@@ -84,101 +78,7 @@ func RunScenario(name string) []string {
 	return trace
 }
 
-func proposal(c *world.Chain, w *world.World, name string, cs exported.ClientState, cons exported.ConsensusState) {
-	w.Do(c, func(ctx sdk.Context) {
-		p, err := clienttypes.NewCreateClientProposal("t", "d", name, cs, cons)
-		if err != nil {
-			panic(err)
-		}
-		cctx, write := ctx.CacheContext()
-		if err := xibcclient.NewClientProposalHandler(c.App.XIBCKeeper.ClientKeeper)(cctx, p); err != nil {
-			panic(err)
-		}
-		write()
-	})
-}
-
-func update(c *world.Chain, w *world.World, name string, hdr exported.Header, signer string) {
-	msg, err := clienttypes.NewMsgUpdateClient(name, hdr, c.Accounts[signer].Acc)
-	if err != nil {
-		panic(err)
-	}
-	w.Block(c, c.CosmosTx(c.Accounts[signer], msg))
-}
-
-// clients: BSC header chain across an epoch with a set switch (the snapshot's map ranges), an ETH fork on chain id 4, TSS updates.
-func clients() {
-	w := world.NewWorld()
-	w.Now = time.Unix(1_700_000_500, 0)
-	c := w.Add("teleport_9000-10", world.Options{Accounts: []string{"r1", "tss"}})
-	w.Block(c)
-	w.Do(c, func(ctx sdk.Context) {
-		for _, n := range []string{"bsc-cp", "eth-cp", "tss-cp"} {
-			c.App.XIBCKeeper.ClientKeeper.RegisterRelayers(ctx, c.Accounts["r1"].Acc.String(), []string{"bsc-cp", "eth-cp", "tss-cp"}, []string{"a", "b", "c"})
-			c.App.XIBCKeeper.ClientKeeper.RegisterRelayers(ctx, c.Accounts["tss"].Acc.String(), []string{"tss-cp"}, []string{"t"})
-			_ = n
-		}
-	})
-	// BSC: 3 validators, epoch 4, genesis announces a 2-validator list; 10 blocks
-	set := []int{0, 1, 2}
-	gen := c09.Build(c09.Spec{Number: 16, Signer: 0, Coinbase: -1, Diff: 2, List: []int{0, 1}})
-	var vals [][]byte
-	for _, i := range set {
-		h := c09.Build(c09.Spec{Number: 1, Signer: i, Coinbase: -1, Diff: 1})
-		vals = append(vals, h.Coinbase)
-	}
-	proposal(c, w, "bsc-cp", bsctypes.NewClientState(*gen, c09.ChainID, 4, 3, vals, common.HexToAddress("0x20000001").Bytes(), 1_000_000_000), &bsctypes.ConsensusState{Timestamp: gen.Time, Height: gen.Height, Root: gen.Root})
-	parent := gen
-	for n := uint64(17); n <= 26; n++ {
-		// try every key with both difficulties: exactly the eligible in-turn / out-of-turn ones are accepted, the rest rejected
-		accepted := false
-		for _, signer := range []int{0, 1, 2, 3} {
-			for _, d := range []int64{2, 1} {
-				var list []int
-				if n%4 == 0 {
-					list = []int{0, 1, 2}
-				}
-				h := c09.Build(c09.Spec{Parent: parent, Number: n, Signer: signer, Coinbase: -1, Diff: d, List: list})
-				update(c, w, "bsc-cp", h, "r1")
-				cs, _ := c.App.XIBCKeeper.ClientKeeper.GetClientState(c.ReadCtx(), "bsc-cp")
-				if cs.GetLatestHeight().GetRevisionHeight() == n && !accepted {
-					accepted = true
-					parent = h
-				}
-				if accepted {
-					break
-				}
-			}
-			if accepted {
-				break
-			}
-		}
-	}
-	// ETH (chain id 4): a fork and a branch switch, an orphan
-	hdr := map[string]*ethtypes.Header{}
-	g := c10.EthHeader(nil, "G", nil)
-	g.Time = uint64(w.Now.Unix()) - 1000
-	hdr["G"] = g
-	gp := c10.ToProto(g)
-	proposal(c, w, "eth-cp", &ethclient.ClientState{Header: *gp, ChainId: 4, ContractAddress: common.HexToAddress("0x20000001").Bytes(), TrustingPeriod: 10_000_000_000, BlockDelay: 1},
-		&ethclient.ConsensusState{Timestamp: gp.Time, Height: gp.Height, Root: gp.Root})
-	for _, n := range [][2]string{{"A1", "G"}, {"B1", "G"}, {"A2", "A1"}, {"B2", "B1"}, {"A3", "A2"}, {"X9", "A7"}} {
-		p, ok := hdr[n[1]]
-		if !ok {
-			h := c10.EthHeader(hdr["G"], n[0], nil)
-			h.ParentHash = common.HexToHash("0x1234")
-			update(c, w, "eth-cp", c10.ToProto(h), "r1")
-			continue
-		}
-		h := c10.EthHeader(p, n[0], nil)
-		hdr[n[0]] = h
-		update(c, w, "eth-cp", c10.ToProto(h), "r1")
-	}
-	// TSS
-	proposal(c, w, "tss-cp", &tsstypes.ClientState{TssAddress: c.Accounts["tss"].Acc.String(), Pubkey: []byte{1}, PartPubkeys: [][]byte{{2}}, Threshold: 1}, &tsstypes.ConsensusState{})
-	update(c, w, "tss-cp", &tsstypes.Header{TssAddress: c.Accounts["tss"].Acc.String(), Pubkey: []byte{3}, PartPubkeys: [][]byte{{4}}, Threshold: 2}, "tss")
-	update(c, w, "tss-cp", &tsstypes.Header{TssAddress: c.Accounts["tss"].Acc.String(), Pubkey: []byte{3}, PartPubkeys: [][]byte{{4}}, Threshold: 2}, "r1")
-}
+func clients() { fx.Clients() }
 
 // ethPow: a main-net ETH client (chain id 1): the update runs the real ethash verification.
 func ethPow() {
@@ -198,13 +98,13 @@ func ethPow() {
 		c.App.XIBCKeeper.ClientKeeper.RegisterRelayers(ctx, c.Accounts["r1"].Acc.String(), []string{"eth-main"}, []string{"a"})
 	})
 	g := hs[0].ToHeader()
-	proposal(c, w, "eth-main", &ethclient.ClientState{Header: g, ChainId: 1, ContractAddress: common.HexToAddress("0x20000001").Bytes(), TrustingPeriod: 10_000_000_000, BlockDelay: 1},
+	fx.Proposal(c, w, "eth-main", &ethclient.ClientState{Header: g, ChainId: 1, ContractAddress: common.HexToAddress("0x20000001").Bytes(), TrustingPeriod: 10_000_000_000, BlockDelay: 1},
 		&ethclient.ConsensusState{Timestamp: g.Time, Height: g.Height, Root: g.Root})
 	h1 := hs[1].ToHeader()
-	update(c, w, "eth-main", &h1, "r1")
+	fx.Update(c, w, "eth-main", &h1, "r1")
 	bad := hs[2].ToHeader()
 	bad.Nonce++
-	update(c, w, "eth-main", &bad, "r1")
+	fx.Update(c, w, "eth-main", &bad, "r1")
 }
 
 var _ = fmt.Sprint
